@@ -22,6 +22,7 @@
 #include "util/hash_table.h"
 #include "util/threadpool.h"
 #include "util/util.h"
+#include "util/verif_hooks.h"
 
 #include <string.h>
 #include <stdlib.h>
